@@ -1622,11 +1622,12 @@ func (s *State) modTargets(env *SpecEnv, m string) (out []modTarget, heap bool) 
 		return out, false
 	}
 	if sel, ok := ex.(*ESel); ok {
-		l, _ := env.addrSafe(sel)
+		l, err := env.addrSafe(sel)
 		if l != nil {
 			locComps(l, false)
 			return out, false
 		}
+		panic(evalErr(fmt.Sprintf("modifies %q: %v", m, err)))
 	}
 	panic(evalErr(fmt.Sprintf("modifies %q: unsupported location form", m)))
 }
